@@ -470,6 +470,9 @@ func (c *c12) partB(P string) {
 			}
 		}
 		samples := baseSamples(K)
+		if adm {
+			samples = append(samples, nonCanonicalSamples(K)...)
+		}
 		if adm && *tier == "thorough" {
 			for i := 0; i < 6000; i++ {
 				samples = append(samples, randomSample(K, prng.New(r.SeedV, "C12.lit."+P+"."+K, i)))
